@@ -27,12 +27,12 @@ def exhaustive(tier):
     cfg = os.path.join(d, "ex.cfg")
     with open(cfg, "w") as f:
         f.write("SPECIFICATION SmallSpec\nCONSTANTS MaxQ = %d\n MaxLen = %d\nVIEW SmallView\n"
-                "INVARIANTS ShapeInv UnitInv FlagsAgree LastAgrees Injective FreeDisjoint FreeAreZero\n" % (maxq, maxlen))
+                "INVARIANTS ShapeInv UnitInv FlagsAgree LastAgrees Injective FreeDisjoint FreeAreZero OneNamer FreeUnnamed\n" % (maxq, maxlen))
     r = vlib.tlc("MCQRuntime.tla", cfg, deadlock=False, timeout=3000, heap="12g")
     vlib.tlc_ok(r, "MCQRuntime exhaustive")
     m = {"maxlen": maxlen, "maxq": maxq, "distinct": r.distinct, "generated": r.generated, "depth": r.depth,
          "wall_s": round(r.wall, 1), "cached": False,
-         "invariants": "ShapeInv UnitInv FlagsAgree LastAgrees Injective FreeDisjoint FreeAreZero".split()}
+         "invariants": "ShapeInv UnitInv FlagsAgree LastAgrees Injective FreeDisjoint FreeAreZero OneNamer FreeUnnamed".split()}
     json.dump(m, open(meta, "w"))
     return m
 
@@ -137,7 +137,7 @@ def run(tier, seed):
             for prop in props.split(","):
                 by_prop[prop].append({"behaviour": i, "what": msg, "program": jobs[i]["src"], "draws": jobs[i]["draws"],
                                       "log": jobs[i]["log"], "echo": jobs[i]["echo"],
-                                      "spec": {k: b[k] for k in ("prog", "halted", "echo", "trk", "ops", "n", "free", "last")}})
+                                      "spec": {k: b[k] for k in ("prog", "halted", "echo", "trk", "ops", "n", "free", "last", "warn")}})
     if by_prop.get("INFRA"):
         raise vlib.Infra("generated program rejected by the front end: %s\n%s" % (by_prop["INFRA"][0]["what"], by_prop["INFRA"][0]["program"][-800:]))
     distinct = len({json.dumps(b["prog"], sort_keys=True) + json.dumps(b["draws"]) for b in behs})
@@ -151,6 +151,10 @@ def run(tier, seed):
         "stmt_kinds": dict(collections.Counter(s["s"] for b in behs for s in b["prog"])),
         "paths": dict(collections.Counter(s.get("path") for b in behs for s in b["prog"] if "path" in s)),
         "ops_total": sum(len(b["ops"]) for b in behs),
+        "unmeasured_reports": sum(len(b.get("warn", [])) for b in behs),
+        # QRuntime.Warned vs. the interpreter's end-of-run report: beyond the listed properties, so a disagreement is recorded, not raised
+        "unmeasured_report_disagreements": len(by_prop.get("NOTE", [])),
+        "unmeasured_report_first_disagreement": (by_prop["NOTE"][0]["what"] if by_prop.get("NOTE") else None),
         "generator_cached": cached, "exhaustive": ex, "wall_s": round(time.time() - t0, 1),
     }
     sample = {"program": jobs[min(3, len(jobs) - 1)]["src"].split("function main")[1][:600] if jobs else "",
